@@ -40,6 +40,10 @@ pub fn select(profile: &str, seed: u64, count: usize, max_states: usize) -> (Vec
         } else {
             let mut rng = Rng::derive(seed ^ 0xC0_4905, i as u64);
             match profile {
+                // every 8th candidate is a definition logos must reject (empty-matching patterns, non-UTF-8
+                // patterns in str mode in every position, greedy dots, look-behind, ...): on a correct tree it
+                // never enters the corpus; if a change makes the derive accept it, its lexer gets exercised
+                "mixed" if i % 8 == 7 => must_reject_candidate(&mut rng, &name, i),
                 "mixed" => gen::mixed(&mut rng, &name, i),
                 "callbacks" => gen::f9_callbacks(&mut rng, &name),
                 "literals" => gen::f11_literal(&mut rng, &name),
@@ -88,6 +92,46 @@ pub fn select(profile: &str, seed: u64, count: usize, max_states: usize) -> (Vec
         out.push(CorpusDef { def, graph: g });
     }
     (out, tried)
+}
+
+fn must_reject_candidate(rng: &mut Rng, name: &str, i: usize) -> Def {
+    use vmon::spec::{Lit, Pat, PatKind};
+    if i % 16 == 7 {
+        loop {
+            let (d, cat) = gen::f8_reject(rng, name);
+            if cat != "ambiguity?" && cat != "unsupported" && cat != "undefined-subpattern" {
+                return d;
+            }
+        }
+    }
+    // str-mode definition with a pattern that can match invalid UTF-8, in any position
+    let mut d = match rng.below(3) {
+        0 => gen::f2_keywords(rng, name),
+        1 => gen::f6_loops(rng, name),
+        _ => gen::f1_soup(rng, name),
+    };
+    d.utf8 = true;
+    if d.pats.len() > 6 {
+        d.pats.truncate(6);
+        let nv = d.pats.iter().filter(|p| p.kind != PatKind::Skip).count();
+        let mut k = 0;
+        for p in d.pats.iter_mut() {
+            if p.kind != PatKind::Skip {
+                p.variant = k;
+                k += 1;
+            }
+        }
+        d.variants.truncate(nv);
+    }
+    let cands: &[&[u8]] = &[b"\xC3", b"\xE2\x82", b"(?-u:[\\xC0-\\xFF])", b"(?-u:[\\x80-\\xBF])+", b"\xF0\x9F", b"(?s-u:.)"];
+    let c: &[u8] = *rng.pick(cands);
+    let lit = if std::str::from_utf8(c).is_ok() { Lit::s(std::str::from_utf8(c).unwrap()) } else { Lit::b(c) };
+    let kind = match rng.below(3) { 0 | 1 => PatKind::Skip, _ => PatKind::Regex };
+    let mut p = Pat::new(kind, lit, 0);
+    p.priority = Some(90 + rng.below(9));
+    d.push(p);
+    d.normalize();
+    d
 }
 
 fn render_def_module(cd: &CorpusDef) -> String {
